@@ -349,6 +349,17 @@ class Index:
         for ci in self.classes.values():
             for c in ci.mro()[1:]:
                 self._subclasses.setdefault(c, []).append(ci)
+        # class-level alias of a module function: `name = staticmethod(function)` makes `name` a static method
+        for ci in self.classes.values():
+            for name, val in list(ci.class_assigns.items()):
+                if isinstance(val, ast.Call) and isinstance(val.func, ast.Name) and val.func.id == "staticmethod" \
+                        and len(val.args) == 1 and not val.keywords and name not in ci.methods:
+                    try:
+                        ent = self.resolve_expr_entity(val.args[0], ci.module)
+                    except Exception:  # noqa: BLE001
+                        ent = None
+                    if ent and ent[0] == "func" and ent[1].cls is None:
+                        ci.methods[name] = ent[1]
         # post-class assignments  `ChannelItem.parent_eflr_class = ChannelSet`
         for mod in self.modules.values():
             for key, val in mod.assigns.items():
